@@ -67,3 +67,28 @@ fn c20_itoa_value_below_100000() {
     assert!(b.len() == 1 || b[0] != b'0', "itoa: canonical (no leading zero)");
     kani::cover!(n == 99_999);
 }
+
+// bounded cross-check at the decade boundaries (where a digit-count decision can go wrong): every n within +-1000 of 10^k, k = 1..=19,
+// and the top of the domain; real function, symbolic n inside the window
+fn itoa_value_window(k: usize) {
+    let mut p: usize = 1;
+    let mut i = 0;
+    while i < k { p = p * 10; i += 1; }                       // 10^k (k <= 19 fits)
+    let (lo, hi) = if k == 0 { (usize::MAX - 2000, usize::MAX) } else { (p - if p > 1000 { 1000 } else { p }, p + 1000) };
+    let n: usize = kani::any();
+    kani::assume(n >= lo && n <= hi);
+    let s = itoa(n);
+    let b = s.as_bytes();
+    assert!(b.len() >= 1 && b.len() <= 20, "itoa: 1..=20 bytes");
+    let mut v: usize = 0;
+    let mut i = 0;
+    while i < b.len() {
+        assert!(b[i] >= b'0' && b[i] <= b'9', "itoa: ASCII digit");
+        v = v.wrapping_mul(10).wrapping_add((b[i] - b'0') as usize);
+        i += 1;
+    }
+    assert!(v == n, "itoa: decimal value of the digits is n");
+    assert!(b.len() == 1 || b[0] != b'0', "itoa: canonical (no leading zero)");
+    kani::cover!(n == hi);
+}
+//@chunks 20 c20_itoa_value_near_power_of_ten itoa_value_window #[kani::proof] #[kani::unwind(22)]
